@@ -69,9 +69,9 @@ def setup(I, name, U):
     # precondition for this property: a plan that is being closed/halted does not raise a different exception
     b.oracle.opt_filter = lambda g, tok, opts: [o for o in opts if not (o == "raise" and "raise_same" in opts and "yield" not in opts)]
     I.call_hooks[f"{MP}:_normalize_devices"] = lambda I_, f, a, k: _ret((set(a[0]), set()))
-    if os.environ.get("VERIF_TIER") != "thorough":
+    if True:      # both tiers (modular: callers are checked against the callee contract; the body of plan_mutator is C20 / C21's)
         # callee's contract: plan_mutator replaced by its C21 reference (insert_reads answers (None, None) for the
-        # inserted locate/read messages and the re-yielded set is skipped by identity); thorough tier: real body
+        # inserted locate/read messages and the re-yielded set is skipped by identity)
         c21 = reference_module(I.P, "verif_ref_c21", open(os.path.join(os.path.dirname(os.path.dirname(os.path.abspath(__file__))), "contracts/refs/c21.py")).read())
         refpm = I.global_lookup(c21, "ref_plan_mutator")
         I.call_hooks[f"{MP}:plan_mutator"] = lambda I_, f, a, k: I_.call(refpm, a, k)
